@@ -47,7 +47,12 @@ _RULES = {
     "BUILTIN-SET": rules_more.rule_builtin_set,
     "RELEX-WINDOW": rules_more.rule_relex_window,
     "UPDATE-ORDER": rules_more.rule_update_order,
+    "REUSE": rules_struct.rule_reuse,
+    "INFO-EXTENT": rules_struct.rule_info_extent,
     "NO-MERGE": rules_more.rule_no_merge,
+    "BSEARCH-MONO": rules_more.rule_bsearch_mono,
+    "DOC-FLOW": rules_more.rule_doc_flow,
+    "SLICE-FIRST": rules_more.rule_slice_first,
     "CURSOR-CMP": rules_more.rule_cursor_cmp,
     "COMMENT-LEX": rules_units.rule_comment_lex,
     "STRIP-REBUILD": rules_more.rule_strip_rebuild,
